@@ -11,6 +11,7 @@ import (
 	"hash/fnv"
 	"os"
 	"path/filepath"
+	"sync/atomic"
 	"time"
 
 	"google.golang.org/grpc/status"
@@ -98,6 +99,18 @@ type node struct {
 	aheadUpTo  int64 // that stale commit offset
 	aheadHead  int64 // the log head offset at that BecomeLeader
 	mcommit    int64 // number of committed entries the model knows for this node (see LearnCommit)
+
+	// power loss (power.go; protected by c.mu)
+	flushImage  string     // WAL directory as it was when the last completed flush started ("" = none / invalidated)
+	flushTmp    string     // image taken at the start of the flush in progress
+	flushTmpGen int
+	imgGen      int        // bumped by TruncateLog / Clear / Delete / restart
+	imgSeq      int
+	flushing    bool       // a flush is between its pre and post hooks
+	park        *flushPark // armed: the next flush parks
+	parked      *flushPark // a flush is parked
+	pendAtCrash []entry    // appended and not synced when the node went down (may or may not be in the files)
+	realWal     atomic.Pointer[walWrap]
 }
 
 func (c *cluster) nodeByName(name string) *node {
@@ -114,7 +127,7 @@ func (n *node) start() error {
 		BaseWalDir:  filepath.Join(n.dir, "wal"),
 		Retention:   time.Hour,
 		SegmentSize: 128 * 1024,
-		SyncData:    false,
+		SyncData:    n.c.captureFlush, // real syncs: the synced offset lags the appended one while a flush is running
 	})
 	kvF, err := kvsafe.New(&kv.FactoryOptions{DataDir: filepath.Join(n.dir, "db"), CacheSizeMB: 4})
 	if err != nil {
@@ -158,9 +171,12 @@ func (f *walFactoryWrap) NewWal(ns string, shard int64, p wal.CommitOffsetProvid
 	c.mu.Lock()
 	f.n.curWal = ww
 	// what was appended but never synced by the previous owner of the WAL is visible after reopening
-	// (the file is memory mapped); the harness never leaves such a tail behind (it waits for the sync).
+	// (the file is memory mapped)
+	ww.promoteLocked()
 	f.n.pending = nil
 	c.mu.Unlock()
+	f.n.realWal.Store(ww)
+	ww.instrument()
 	return ww, nil
 }
 
@@ -205,6 +221,7 @@ func (c *cluster) entryOfLocked(le *proto.LogEntry, own bool) entry {
 func (w *walWrap) AppendAndSync(le *proto.LogEntry, cb func(err error)) {
 	c := w.n.c
 	le2 := &proto.LogEntry{Term: le.Term, Offset: le.Offset, Value: append([]byte(nil), le.Value...), Timestamp: le.Timestamp}
+	defer w.instrument()
 	w.Wal.AppendAndSync(le, func(err error) {
 		if err == nil {
 			c.mu.Lock()
@@ -247,18 +264,16 @@ func (n *node) appendShadowLocked(e entry, what string) {
 }
 
 func (w *walWrap) Append(le *proto.LogEntry) error {
-	err := w.Wal.Append(le)
-	if err == nil {
-		c := w.n.c
-		c.mu.Lock()
-		w.n.appendShadowLocked(c.entryOfLocked(le, false), "append")
-		c.mu.Unlock()
+	err := w.AppendAsync(le)
+	if err != nil {
+		return err
 	}
-	return err
+	return w.Sync(context.Background())
 }
 
 func (w *walWrap) AppendAsync(le *proto.LogEntry) error {
 	err := w.Wal.AppendAsync(le)
+	w.instrument()
 	if err == nil {
 		c := w.n.c
 		c.mu.Lock()
@@ -268,21 +283,27 @@ func (w *walWrap) AppendAsync(le *proto.LogEntry) error {
 	return err
 }
 
+// promoteLocked: the entries the real WAL reports as synced move from the pending tail to the shadow log.
+func (w *walWrap) promoteLocked() {
+	synced := w.Wal.LastOffset()
+	k := 0
+	for k < len(w.n.pending) && w.n.pending[k].off <= synced {
+		k++
+	}
+	for _, e := range w.n.pending[:k] {
+		w.n.appendShadowLocked(e, "follower-append")
+	}
+	w.n.pending = w.n.pending[k:]
+}
+
 func (w *walWrap) Sync(ctx context.Context) error {
 	c := w.n.c
-	c.mu.Lock()
-	k := len(w.n.pending)
-	c.mu.Unlock()
 	err := w.Wal.Sync(ctx)
 	if err == nil {
 		c.mu.Lock()
-		if k > len(w.n.pending) {
-			k = len(w.n.pending)
+		if w.inc == w.n.inc && w.n.curWal == w {
+			w.promoteLocked()
 		}
-		for _, e := range w.n.pending[:k] {
-			w.n.appendShadowLocked(e, "follower-append")
-		}
-		w.n.pending = w.n.pending[k:]
 		c.mu.Unlock()
 	}
 	return err
@@ -290,9 +311,11 @@ func (w *walWrap) Sync(ctx context.Context) error {
 
 func (w *walWrap) TruncateLog(lastSafe int64) (int64, error) {
 	head, err := w.Wal.TruncateLog(lastSafe)
+	w.instrument()
 	if err == nil {
 		c := w.n.c
 		c.mu.Lock()
+		w.n.invalidateImageLocked()
 		w.n.pending = nil
 		if head+1 < int64(len(w.n.log)) {
 			if head+1 < w.n.walFirst {
@@ -308,9 +331,11 @@ func (w *walWrap) TruncateLog(lastSafe int64) (int64, error) {
 
 func (w *walWrap) Clear() error {
 	err := w.Wal.Clear()
+	w.instrument()
 	if err == nil {
 		c := w.n.c
 		c.mu.Lock()
+		w.n.invalidateImageLocked()
 		w.n.pending = nil
 		w.n.log = nil
 		w.n.walFirst = 0
@@ -323,6 +348,7 @@ func (w *walWrap) Delete() error {
 	err := w.Wal.Delete()
 	c := w.n.c
 	c.mu.Lock()
+	w.n.invalidateImageLocked()
 	w.n.pending = nil
 	w.n.log = nil
 	w.n.walFirst = 0
